@@ -11,6 +11,10 @@ CHECKS = {
    text="Full Cartesian products of a boundary alphabet of receiver dates (month ends, leap days, century years, negative years, both range ends) x sign-uniform durations (years to +-547000, months, weeks, days, time parts around 24h/48h) x {add, subtract} x {constrain, reject, absent}; all ordered date pairs of the alphabet and ALL ordered pairs of days of 2019-2022 (plus 1899-1901, 1999-2001 in thorough) x {until, since} x 6 largest-unit settings; depth-2 chains (add then add, add then measure back) so that non-initial states are receivers. Each transition is compared with R2 (AddISODate / DifferenceISODate transcribed from the specification, i64) and with the laws add(until)=end, since=-until, subtract(d)=add(-d), sign-uniform, balanced.",
    note="Trusted: R2 (validated on every run against the literal linear-search formulation on a 1/7 slice of the dense window and against add(until)=end on every pair). Values outside the alphabets are not covered; ISO calendar only (the crate implements date arithmetic for no other calendar).",
    ref="3/C04"),
+ "C05": dict(cat="model_checking", tech="bounded exhaustive product sweeps + depth-2 operation sequences on the real code, lock-step against reference models R2/R3/R4",
+   text="A boundary alphabet of ~560 date-times (all month ends and mid-months of 2019-2021, leap days, 1969/1970, year 0, both range ends and their neighbours x 8 times of day from 00:00 to 23:59:59.999999999) x ~650 durations (date parts up to 547000 years, time parts 0, 1 ns, 24h-1ns, 24h, 24h+1ns, 36h, 1e5 h, 2^53-1 ns; both signs) x {add, subtract} x 3 overflow settings; ALL ordered pairs of the date-times x {until, since} x 12 largest-unit settings (half of the pairs have a time-of-day order opposite to their date order); compose/convert routes; depth-2 chains (add, then measure back with every unit). Oracle: AddDateTime / DifferenceISODateTime transcribed from the specification over exact ns, plus the laws a.add(a.until(b,U)) = b, since = -until, sign-uniform, |time part| < 24 h for date largest units. Rounding: every admissible (unit, increment) x residue battery x 9 modes on month-end / year-end / last-representable dates (carry past midnight, RangeError iff the neighbour is out of range).",
+   note="Trusted: R2/R3/R4 reference models. Differences whose balanced field exceeds 2^53 (not representable) are skipped. Values outside the alphabets are not covered.",
+   ref="3/C05"),
  "C06": dict(cat="model_checking", tech="bounded exhaustive product sweeps and nanosecond range walks on the real code, lock-step against an exact i128 reference model",
    text="432 boundary times x all sign-uniform combinations of per-field duration alphabets {0, 1, wrap-1, wrap, 2^31+1, field maximum (up to 3.6e24 ns, far above 2^63)} for PlainTime add/subtract; 32 boundary instants (range ends, +-1, ms/s/day boundaries, negative values) x the same durations for Instant add/subtract with exact range check, plus durations with any date field (must be refused); a range walk over EVERY nanosecond of [-3e6, +3e6] and of the first/last 2e6 ns of the instant range for epoch_milliseconds = floor(ns/1e6) and from_epoch_milliseconds; all ordered pairs of the time and instant alphabets x 8 largest-unit settings for until/since (exact difference, balanced, since = -until, b.add(a.since(b)) = a); every time within 1000 ns of a second/minute/hour/noon/midnight boundary x small steps (carry chain).",
    note="Trusted: R3 (integer arithmetic mod 86400e9 and on the epoch line; duration fields are integral doubles converted exactly to i128). Durations within 5% of the 2^53 s limit are left to C09. Instant differences whose balanced field exceeds 2^53 are executed but not compared (not representable).",
